@@ -38,7 +38,7 @@ specializations of a parameterized type, as a component; lib/c10_strlit.py: stri
  (j) every job: a `FATAL:` line or an `#error` directive in a generated file never comes with exit status 0;
  (k) the emitted permitted-alphabet checker of every FROM site admits exactly the octets of the literal (c10_util.alphabet_oracle);
  (l) exit status and number of `Cannot compile` diagnostics = CompileFold.exit_status / top_fatals of the extracted model on the
-     emission-unit tree of the module (theorems C10_exit_zero_iff_all_units_ok, C10_exit_order_independent, ...)."""
+     emission-unit tree of the module (theorems C10_exit_zero_iff_all_ok, C10_exit_order_independent, ...)."""
 import sys, os, re, json, time
 sys.path.insert(0, os.path.join(os.path.dirname(os.path.abspath(__file__)), "..", "lib"))
 from vlib import *
@@ -64,10 +64,14 @@ def has_of_with_sized_of_element(text):
 
 
 def param_nested(text):
-    """a parameterised type P instantiated with an actual parameter that is itself defined as an instance of P"""
+    """a parameterised type P instantiated with an actual parameter that is itself an instance of P: defined as one by name,
+    or written in place, P { P {...} } (reachable since an instantiation used as an actual parameter keeps its own parameters,
+    notes/fixes/J/05: both specializations then live in P.h, the outer one first)"""
     t = strip_comments(text)
     params = re.findall(r"(?m)^\s*([A-Z][\w-]*)\s*\{[^}]*\}\s*::=", t)
     for p in params:
+        if re.search(r"\b%s\s*\{\s*%s\s*\{" % (re.escape(p), re.escape(p)), t):
+            return True
         inst = set(re.findall(r"(?m)^\s*([A-Z][\w-]*)\s*::=\s*%s\s*\{" % re.escape(p), t))
         for a in re.findall(r"\b%s\s*\{\s*([A-Z][\w-]*)\s*\}" % re.escape(p), t):
             if a in inst:
@@ -210,24 +214,6 @@ def objset_shared_by_two_specializations(text):
     return False
 
 
-def open_type_in_nested_struct(text):
-    """a component relation constraint `{@...}` written inside a SEQUENCE / SET / CHOICE that is itself inside another one"""
-    t = strip_comments(text)
-    stack = []
-    for m in re.finditer(r"\b(SEQUENCE|SET|CHOICE)\s*\{|\{\s*@|\{|\}", t):
-        tok = m.group(0)
-        if tok == "}":
-            if stack:
-                stack.pop()
-        elif m.group(1):
-            stack.append("struct")
-        else:
-            if "@" in tok and stack.count("struct") >= 2:
-                return True
-            stack.append("other")
-    return False
-
-
 def real_reference_with_range(text):
     """a reference to a type whose chain ends in REAL, used with a value constraint (not WITH COMPONENTS)"""
     t = strip_comments(text)
@@ -250,9 +236,6 @@ def match_finding(stage, job):
     if stage == "signal":
         if "asn1p_parse: Assertion `!TQ_FIRST" in err and has_of_with_sized_of_element(text):
             return "C10-of-of-size-assert"
-        if job["rc"] == -6 and "Cannot compile" in err and "asn1c_lang_C_type_SEQUENCE: Assertion `arg->target->target == OT_TYPE_DECLS" in err \
-           and open_type_in_nested_struct(text):
-            return "C10-component-emitter-failure-assert"
         if job["rc"] == -11 and left_recursive_choice(text):
             return "C11-leftrec-crash"
     if stage in ("build", "cxx"):
@@ -265,15 +248,13 @@ def match_finding(stage, job):
             return "C10-param-circular-include"
         if re.search(r"empty enum is invalid|asn_MAP_\w+_tag2el_\d+. undeclared", blog) and has_empty_set(text):
             return "C10-empty-set"
-        if re.search(r"\b(EXTERNAL|EMBEDDED_PDV|CHARACTER_STRING)\.h: No such file", blog) and re.search(r"\b(EXTERNAL|EMBEDDED\s+PDV|CHARACTER\s+STRING)\b", strip_comments(text)):
+        if re.search(r"\bCHARACTER_STRING\.h: No such file", blog) and re.search(r"\bCHARACTER\s+STRING\b", strip_comments(text)):
             return "C10-unsupported-useful-types-no-skeleton"
         if re.search(r"unknown type name .\w+_\d+P\d+_t|asn_DEF_\w+_\d+P\d+. undeclared|\w+_\d+P\d+. has not been declared|does not name a type", blog):
             if param_type_in_two_modules(text):
                 return "C10-param-type-in-two-modules"
         if re.search(r"redefinition of .asn_(VAL|IOS)_", blog) and objset_shared_by_two_specializations(text):
             return "C10-param-objset-table-per-specialization"
-        if re.search(r"#error Cannot compile", blog) and re.search(r"\bINSTANCE\s+OF\b", strip_comments(text)):
-            return "C10-instance-of-member-error-directive"
         if re.search(r"\b[\w-]+\.h: No such file", blog) and valueset_used_as_type(text):
             return "C10-valueset-type-as-member"
         if re.search(r"asn_REAL2double.*incompatible pointer type|invalid operands to binary .* \(have .\w+_t. \{aka .struct ASN__PRIMITIVE_TYPE_s.\}", blog) \
@@ -287,14 +268,6 @@ def match_finding(stage, job):
         if all(re.match(r"FATAL: Inappropriate value \{", l) for l in job.get("fatal_lines", [])) and not job.get("error_directives") \
            and re.search(r"&[a-z][\w-]*\s+(OBJECT\s+IDENTIFIER|RELATIVE-OID)", t):
             return "C18-oid-identifier"
-        # the two component findings: EVERY diagnostic names a component (identifiers of components start with a lower-case letter,
-        # top-level types and specializations with an upper-case one), and the module has such a component
-        comp_only = all(re.match(r'FATAL: Cannot compile "[a-z]', l) for l in job.get("fatal_lines", [])) and \
-            all(re.search(r'#\s*error Cannot compile "[a-z]', l) for l in job.get("error_directives", []))
-        if comp_only and re.search(r"[a-z][\w-]*\s+(?:\[[^\]]*\]\s*)?INSTANCE\s+OF\b", t):
-            return "C10-instance-of-member-error-directive"
-        if comp_only and re.search(r"[a-z][\w-]*\s+(?:\[[^\]]*\]\s*)?(EXTERNAL|EMBEDDED\s+PDV)\b", t):
-            return "C10-unsupported-useful-types-no-skeleton"
     if stage == "files-model":
         # model and C disagree on the per-type file names ONLY at parameterized types defined in two modules
         # (the templates are not run through asn1f_check_duplicate: no module prefix, both saved to one file)
@@ -307,7 +280,7 @@ def match_finding(stage, job):
         if kinds <= {"written-twice"} and clash and all(p_.split(":")[1][:-2] in clash for p_ in job["fileset"]):
             return "C10-param-type-in-two-modules"
         incs = " ".join(job.get("fileset", []))
-        if kinds <= {"missing-include"} and re.search(r"includes (EXTERNAL|EMBEDDED_PDV|CHARACTER_STRING)\.h", incs) and re.search(r"\b(EXTERNAL|EMBEDDED\s+PDV|CHARACTER\s+STRING)\b", strip_comments(text)):
+        if kinds <= {"missing-include"} and re.search(r"includes CHARACTER_STRING\.h", incs) and re.search(r"\bCHARACTER\s+STRING\b", strip_comments(text)):
             return "C10-unsupported-useful-types-no-skeleton"
         if kinds <= {"missing-include"} and valueset_used_as_type(text):
             return "C10-valueset-type-as-member"
@@ -440,7 +413,7 @@ def region_ties(run, res, known_ids):
 
 def fold_ties(run, res, known_ids):
     """model (Fix/CompileFold.v: exit_status, top_fatals) vs asn1c (exit status, number of `FATAL: Cannot compile` lines) on the
-    modules of lib/c10_partial.py, and the Spec evaluated directly: a failing unit / specialization => non-zero exit"""
+    modules of lib/c10_partial.py, and the Spec evaluated directly: a failing unit / specialization / component => non-zero exit"""
     model = model_build()
     js = [j for j in res if j["mod"].get("partial") and 0 <= j.get("rc", -1) < 124]
     js = [j for j in js if not (j.get("name_clash") and "-fcompound-names" not in j["opts"])]     # another refusal path (c_name_clash), not this loop
@@ -457,14 +430,14 @@ def fold_ties(run, res, known_ids):
                   "replay_cmd": "asn1c -S <skeletons> -pdu=all %s %s.asn1" % (" ".join(opts), m["name"]), "asn1c_rc": j["rc"],
                   "asn1c_stderr": "\n".join(l for l in j.get("stderr", "").split("\n") if l.startswith("FATAL"))[-800:], "model_cmd": line}
         run.count("tie:compile-fold")
-        run.count("fold:%s:%s" % (m.get("position"), "fails" if c10_partial.any_fails(m, opts, components=False) else "compiles"))
+        run.count("fold:%s:%s" % (m.get("position"), "fails" if c10_partial.any_fails(m, opts) else "compiles"))
         got = "OK exit=%d fatals=%d" % (j["rc"], j.get("cannot_compile", 0))
-        spec_fail = c10_partial.any_fails(m, opts, components=False)
+        spec_fail = c10_partial.any_fails(m, opts)
         if ans != got:
             run.violation("correspondence:CompileFold.exit_status", dict(replay, what="exit status / number of `Cannot compile` diagnostics of asn1c differ from the model of the compile loop",
                                                                          model=ans, c=got), no_input=not (spec_fail and j["rc"] == 0))
         if spec_fail and j["rc"] == 0:
-            run.violation("partial:failed-unit-but-exit-0", dict(replay, what="a unit (top-level type or specialization) the emitter refuses is part of the module, asn1c exits 0"))
+            run.violation("partial:failed-unit-but-exit-0", dict(replay, what="a unit (top-level type, specialization or EMBEDded component) the emitter refuses is part of the module, asn1c exits 0"))
         if not c10_partial.any_fails(m, opts) and j["rc"] != 0:
             run.count("partial:refused-although-no-known-refusal")
             run.violation("asn1c:repaired-construct-refused", dict(replay, what="every unit of the module compiles under these options (the handled neighbours of the emitter's refusals), asn1c refuses it"))
